@@ -1,11 +1,257 @@
 (* Wire-level wrappers of property C19: decode arguments from sx, run the model, encode.
-   Dispatch.v routes a block of unit numbers here; [k] is the offset inside the block. *)
+   Dispatch.v routes a block of unit numbers here; [k] is the offset inside the block.
+
+   pval wire : (0) None | (1 b) | (2 z) | (3 id) float | (4 (codes)) str | (5 n d) Fraction
+               | (6 (codes)) Decimal | (7 (items)) tuple | (8 (items)) frozenset | (9 (items)) list
+               | (10 (items)) set | (11 ((k v)..)) dict | (12 (codes) (((codes) v)..)) object
+               | (13 (codes)) callable | (14 id) opaque
+   jval wire : (0) null | (1 b) | (2 z) | (3 id) | (4 (codes)) | (5 tup (items)) | (6 (((codes) j)..))
+   env wire  : (xid_start_codes xid_continue_codes classes callables), classes = (((codes) (names..))..)
+   dres wire : (0 pval) | (1 code) | (4)
+   line wire : (0 (toks)) with tok (0 n) | (1 q) | (2) ; (1 (codes)) quoted *)
 From Coq Require Import ZArith QArith List Bool.
-From VL Require Import Prelude.Sx.
+From VL Require Import Prelude.Sx Model.Persist Model.BallotFile.
 Import ListNotations.
 Open Scope Z_scope.
 
+Definition as_str (s : sx) : option str := as_listof as_Z s.
+Definition of_str (s : str) : sx := L (map A s).
+
+(* opt_map with the function outside the fixpoint, so that nested recursive calls are accepted *)
+Section OM.
+  Context {X Y : Type}.
+  Variable f : X -> option Y.
+  Fixpoint omap (l : list X) : option (list Y) :=
+    match l with
+    | [] => Some []
+    | x :: t => match f x, omap t with
+                | Some y, Some ys => Some (y :: ys)
+                | _, _ => None
+                end
+    end.
+End OM.
+
+Fixpoint pval_of_sx (s : sx) : option pval :=
+  match s with
+  | L [A 0] => Some PNone
+  | L [A 1; b] => option_map PBool (as_bool b)
+  | L [A 2; A z] => Some (PInt z)
+  | L [A 3; A i] => Some (PFloat i)
+  | L [A 4; c] => option_map PStr (as_str c)
+  | L [A 5; A n; A (Zpos d)] => Some (PFrac n d)
+  | L [A 6; c] => option_map PDec (as_str c)
+  | L [A 7; L l] => option_map PTuple (omap (fun x => pval_of_sx x) l)
+  | L [A 8; L l] => option_map PFrozenset (omap (fun x => pval_of_sx x) l)
+  | L [A 9; L l] => option_map PList (omap (fun x => pval_of_sx x) l)
+  | L [A 10; L l] => option_map PSet (omap (fun x => pval_of_sx x) l)
+  | L [A 11; L l] =>
+      option_map PDict (omap (fun kv => match kv with
+                                           | L [k; v] => match pval_of_sx k, pval_of_sx v with
+                                                         | Some k', Some v' => Some (k', v')
+                                                         | _, _ => None end
+                                           | _ => None end) l)
+  | L [A 12; c; L l] =>
+      match as_str c, omap (fun kv => match kv with
+                                         | L [k; v] => match as_str k, pval_of_sx v with
+                                                       | Some k', Some v' => Some (k', v')
+                                                       | _, _ => None end
+                                         | _ => None end) l with
+      | Some c', Some ps => Some (PObj c' ps)
+      | _, _ => None
+      end
+  | L [A 13; c] => option_map PCallable (as_str c)
+  | L [A 14; A i] => Some (POpaque i)
+  | _ => None
+  end.
+
+Fixpoint sx_of_pval (v : pval) : sx :=
+  match v with
+  | PNone => L [A 0]
+  | PBool b => L [A 1; of_bool b]
+  | PInt z => L [A 2; A z]
+  | PFloat i => L [A 3; A i]
+  | PStr s => L [A 4; of_str s]
+  | PFrac n d => L [A 5; A n; A (Zpos d)]
+  | PDec s => L [A 6; of_str s]
+  | PTuple l => L [A 7; L (map sx_of_pval l)]
+  | PFrozenset l => L [A 8; L (map sx_of_pval l)]
+  | PList l => L [A 9; L (map sx_of_pval l)]
+  | PSet l => L [A 10; L (map sx_of_pval l)]
+  | PDict d => L [A 11; L (map (fun kv => match kv with (k, x) => L [sx_of_pval k; sx_of_pval x] end) d)]
+  | PObj c ps => L [A 12; of_str c; L (map (fun kv => match kv with (k, x) => L [of_str k; sx_of_pval x] end) ps)]
+  | PCallable n => L [A 13; of_str n]
+  | POpaque i => L [A 14; A i]
+  end.
+
+Fixpoint jval_of_sx (s : sx) : option jval :=
+  match s with
+  | L [A 0] => Some JNull
+  | L [A 1; b] => option_map JBool (as_bool b)
+  | L [A 2; A z] => Some (JInt z)
+  | L [A 3; A i] => Some (JFloat i)
+  | L [A 4; c] => option_map JStr (as_str c)
+  | L [A 5; t; L l] =>
+      match as_bool t, omap (fun x => jval_of_sx x) l with
+      | Some t', Some js => Some (JList t' js)
+      | _, _ => None
+      end
+  | L [A 6; L l] =>
+      option_map JDict (omap (fun kv => match kv with
+                                           | L [k; v] => match as_str k, jval_of_sx v with
+                                                         | Some k', Some v' => Some (k', v')
+                                                         | _, _ => None end
+                                           | _ => None end) l)
+  | _ => None
+  end.
+
+Fixpoint sx_of_jval (j : jval) : sx :=
+  match j with
+  | JNull => L [A 0]
+  | JBool b => L [A 1; of_bool b]
+  | JInt z => L [A 2; A z]
+  | JFloat i => L [A 3; A i]
+  | JStr s => L [A 4; of_str s]
+  | JList t l => L [A 5; of_bool t; L (map sx_of_jval l)]
+  | JDict d => L [A 6; L (map (fun kv => match kv with (k, x) => L [of_str k; sx_of_jval x] end) d)]
+  end.
+
+Definition sx_of_dres (r : dres) : sx :=
+  match r with
+  | DOk v => L [A 0; sx_of_pval v]
+  | DErr e => L [A 1; A e]
+  | DUn => L [A 4]
+  end.
+
+(* characters a decimal literal is made of: digits . E e + - and the letters of Infinity / NaN / sNaN *)
+Definition dec_char (c : Z) : bool :=
+  ((48 <=? c) && (c <=? 57)) || existsb (Z.eqb c) [46; 69; 101; 43; 45; 73; 110; 102; 105; 116; 121; 78; 97; 115].
+
+Definition strs_mem (s : str) (l : list str) : bool := existsb (str_eqb s) l.
+
+Definition env_of_sx (s : sx) : option env :=
+  match s with
+  | L [st; ct; cls; cal] =>
+      match as_listof as_Z st, as_listof as_Z ct,
+            as_listof (as_pair as_str (as_listof as_str)) cls, as_listof as_str cal with
+      | Some st', Some ct', Some cls', Some cal' =>
+          Some {| xid_start := fun c => existsb (Z.eqb c) st';
+                  xid_continue := fun c => existsb (Z.eqb c) ct';
+                  (* the harness sends canonical decimal strings, or strings with a foreign character *)
+                  dec_canon := fun d => match d with
+                                        | [] => None
+                                        | _ => if forallb dec_char d then Some d else None
+                                        end;
+                  class_exists := fun c => existsb (fun e => str_eqb c (fst e)) cls';
+                  class_accepts := fun c names =>
+                    existsb (fun e => str_eqb c (fst e) && forallb (fun n => strs_mem n (snd e)) names) cls';
+                  callable_resolves := fun n => strs_mem n cal' |}
+      | _, _, _, _ => None
+      end
+  | _ => None
+  end.
+
+(* ---- ballot files *)
+Definition tok_of_sx (s : sx) : option tok :=
+  match s with
+  | L [A 0; A n] => Some (TNat n)
+  | L [A 1; q] => option_map TNum (as_Q q)
+  | L [A 2] => Some TBad
+  | _ => None
+  end.
+Definition line_of_sx (s : sx) : option line :=
+  match s with
+  | L [A 0; ts] => option_map LToks (as_listof tok_of_sx ts)
+  | L [A 1; c] => option_map LQuoted (as_str c)
+  | _ => None
+  end.
+Definition sx_of_tok (t : tok) : sx :=
+  match t with TNat n => L [A 0; A n] | TNum q => L [A 1; of_Q q] | TBad => L [A 2] end.
+Definition sx_of_line (l : line) : sx :=
+  match l with LToks ts => L [A 0; L (map sx_of_tok ts)] | LQuoted s => L [A 1; of_str s] end.
+
+Definition cand_of_sx (s : sx) : option cand :=
+  match s with
+  | L [A (Zpos i); nm; w] => match as_str nm, as_bool w with
+                             | Some n, Some b => Some (i, n, b)
+                             | _, _ => None end
+  | _ => None
+  end.
+Definition election_of_sx (s : sx) : option election :=
+  match s with
+  | L [votes; A seats; cands; title] =>
+      match as_listof (as_pair (as_listof as_pos) as_Q) votes, as_listof cand_of_sx cands,
+            match title with L [] => Some None | L [t] => option_map Some (as_str t) | _ => None end with
+      | Some v, Some c, Some t => Some (v, seats, c, t)
+      | _, _, _ => None
+      end
+  | _ => None
+  end.
+
+Definition sx_of_loaded (r : loaded) : sx :=
+  match r with
+  | (ballots, seats, cands, title) =>
+      L [L (map (fun rw => L [L (map A (fst rw)); of_Q (snd rw)]) ballots); A seats;
+         L (map (fun cw => L [match fst cw with Named s => L [A 0; of_str s] | Numbered n => L [A 1; A n] end;
+                              of_bool (snd cw)]) cands);
+         match title with Some t => L [of_str t] | None => L [] end]
+  end.
+Definition sx_of_lres (r : lres loaded) : sx :=
+  match r with
+  | Ok x => ok (sx_of_loaded x)
+  | ParseError => err E_PARSE
+  | Crash e => err e
+  end.
+
 Definition u_c19 (k : Z) (a : sx) : sx :=
   match k with
+  | 0 =>   (* (env value) -> saving, then loading directly and through JSON text *)
+      match a with
+      | L [e; v] =>
+          match env_of_sx e, pval_of_sx v with
+          | Some E, Some pv =>
+              match serialize_value pv with
+              | SErr => err Persist.E_VALUE
+              | SOk j => ok (L [sx_of_jval j; sx_of_dres (deserialize_value E j);
+                                sx_of_dres (deserialize_value E (json_rt j));
+                                of_bool (representable E pv); sx_of_dres (from_dict E (json_rt j))])
+              end
+          | _, _ => bad_input
+          end
+      | _ => bad_input
+      end
+  | 1 =>   (* (env json) -> deserialize_value, from_dict *)
+      match a with
+      | L [e; j] =>
+          match env_of_sx e, jval_of_sx j with
+          | Some E, Some jv => ok (L [sx_of_dres (deserialize_value E jv); sx_of_dres (from_dict E jv)])
+          | _, _ => bad_input
+          end
+      | _ => bad_input
+      end
+  | 2 =>   (* (pinned oneplus election) -> written lines, what loading them gives, what is expected *)
+      match a with
+      | L [p; o; e] =>
+          match as_bool p, as_bool o, election_of_sx e with
+          | Some p', Some o', Some el =>
+              match dump_lines p' el with
+              | DumpRefuse => L [A 5]
+              | DumpOk ls =>
+                  ok (L [L (map sx_of_line ls); sx_of_lres (load_lines p' o' ls);
+                         match expected el with Some x => sx_of_loaded x | None => L [] end;
+                         of_bool (wf_election el)])
+              end
+          | _, _, _ => bad_input
+          end
+      | _ => bad_input
+      end
+  | 3 =>   (* (pinned oneplus lines) -> load_lines *)
+      match a with
+      | L [p; o; ls] =>
+          match as_bool p, as_bool o, as_listof line_of_sx ls with
+          | Some p', Some o', Some ls' => sx_of_lres (load_lines p' o' ls')
+          | _, _, _ => bad_input
+          end
+      | _ => bad_input
+      end
   | _ => bad_input
   end.
